@@ -195,6 +195,10 @@ func verifyOwners(entries []discovery.Entry, allowedOwners []*regexp.Regexp) (re
 		if entry.PathError != nil {
 			continue
 		}
+		if entry.Rule.Error.Err != nil {
+			// Reported as a syntax error, there's no rule to point at.
+			continue
+		}
 		if entry.Owner == "" {
 			reports = append(reports, reporter.Report{
 				Path:          entry.Path,
